@@ -28,6 +28,11 @@ Definition st_wf (st : symtab) : Prop :=
     | SLabel v | SDataLabel v => 0 <= v < 65536
     | SConstant v => -32768 <= v < 65536
     end.
+(* all that is used of it: code labels are addresses below 2^16 (data labels and constants are range-checked
+   against the field they are used in) *)
+Definition st_wf_labels (st : symtab) : Prop := forall k v, dict_get st k = Some (SLabel v) -> 0 <= v < 65536.
+Lemma st_wf_weaken st : st_wf st -> st_wf_labels st.
+Proof. intros H k v E. exact (H k _ E). Qed.
 
 (* substitute_label, precisely *)
 Lemma subst_tokens_exact ts st ts' : subst_tokens ts st = Ok ts' ->
@@ -79,7 +84,7 @@ Definition shape (p : ptype) (t : token) (st : symtab) : Prop :=
   | _ => True
   end.
 
-Lemma arg_shape p t st : check_arg p t st = None -> tok_wf t -> st_wf st -> shape p t st.
+Lemma arg_shape p t st : check_arg p t st = None -> tok_wf t -> st_wf_labels st -> shape p t st.
 Proof.
   intros H W S.
   assert (Hp : tok_parsed t).
@@ -107,7 +112,7 @@ Proof.
 Qed.
 
 Lemma shapes_of ps ts st :
-  Forall2 (fun p t => check_arg p t st = None) ps ts -> Forall tok_wf ts -> st_wf st ->
+  Forall2 (fun p t => check_arg p t st = None) ps ts -> Forall tok_wf ts -> st_wf_labels st ->
   Forall2 (fun p t => shape p t st) ps ts.
 Proof.
   intros F W S. induction F as [|p t ps ts H _ IH]; constructor.
@@ -170,7 +175,7 @@ Definition rel_symbol_is_constant (c : opname) (ts : list token) (st : symtab) :
 
 Theorem accepted_op_valid c ts st ts' l :
   expands_to_instructions c = true ->
-  Forall tok_wf ts -> st_wf st ->
+  Forall tok_wf ts -> st_wf_labels st ->
   has_errors (default_typecheck (mkop c ts) st) = false ->
   rel_symbol_is_constant c ts st ->
   subst_tokens ts st = Ok ts' ->
@@ -219,7 +224,7 @@ Lemma ktoks2_1 c a b : tokens_at (mkop c [a; b]) 1 = Ok b.         Proof. reflex
 (* ... and the expansion itself never raises *)
 Theorem accepted_op_converts c ts st :
   expands_to_instructions c = true ->
-  Forall tok_wf ts -> st_wf st ->
+  Forall tok_wf ts -> st_wf_labels st ->
   has_errors (default_typecheck (mkop c ts) st) = false ->
   exists ts' l, subst_tokens ts st = Ok ts' /\ convert_full (mkop c ts') = Ok l.
 Proof.
